@@ -16,6 +16,8 @@ from mc.ref import mtypes as T
 
 ID = 'C16'
 LEVEL = 'exploration'
+LEVEL_TEXT = ('exhaustive over the full product of per-type boundary sets for every instruction x admissible operand types: decides the '
+              'arithmetic / conversion / failure logic at every byte boundary, sign and limit named in the statement; says nothing about values between the boundaries')
 RULE = ('instruction x admissible operand types x ALL value combinations from per-type boundary sets (signs, zero, 2^(8k)-1, 2^(8k), '
         '2^(8k-1), the mutez limit 2^63, shift counts 255/256/257); non-trivial = distinct (instr, types, operands) whose reference '
         'result is not a plain success on small numbers (|operands| > 255, a failure, or an option result)')
